@@ -118,9 +118,11 @@ CLAIMED = {
  'C09': ('Kernel-checked theorems: WIF export/import round trip for every secret in [1,n-1] and one-byte prefix (generated per-network prefixes), '
          'standard form, rejection of bad checksum / other version byte / non-alphabet characters, an explicit secret is held exactly or construction '
          'fails (only the argument-less call is random), public key = d*G, SEC standard forms, and parsing the compressed, uncompressed '
-         'and x-only encodings of d*G returns the identical point (curve facts proved); off-curve x rejected. Model tied to the code by the correspondence run.',
+         'and x-only encodings of d*G returns the identical point (curve facts proved); off-curve x rejected. Tier T: PrivateKey._from_wif and to_wif are re-translated on every run '
+         '(base58check and SigningKey.from_string as parameters, the network prefix a parameter) and proved equal to the model, so the WIF round trip and the rejections are about the '
+         'translated code; key construction from secrets and the SEC / x-only public-key parser (python-ecdsa, sympy) are a hand model tied to the code by the correspondence run.',
          NOTE_COMMON + 'base58check, python-ecdsa constructors and sympy sqrt_mod modelled by their specifications.',
-         'Lean 4 proof (hand model) + differential correspondence', '6/C09'),
+         'Lean 4 proof (WIF over translated source; key and point parsing hand model) + differential correspondence', '6/C09'),
  'C10': ('Kernel-checked theorems: address string = Base58Check(version || hash) with the generated per-network version bytes; an address object '
          'accepts a string only if it is Base58Check-valid with that version byte and a 20-byte payload and then holds exactly that payload; '
          'round trip for every 20-byte hash (26..35-character window as hypothesis); pubkey addresses commit to HASH160 of the SEC encoding. '
